@@ -118,33 +118,29 @@ def run(cx):
     f, r = ret1('<impl fields::fp12::Fp12>::fp12_frobenius6')
     if f:
         cx.add('K-SM9-FROB', 'frobenius6/use', r == ['Fp12::Fp12{conjugate($self.c0), fp_neg(conjugate($self.c1)), conjugate($self.c2)}'], 'p^6-Frobenius = conjugation with sign change on the w coefficient', f.loc())
-    # component-wise stores in frobenius / frobenius3
-    def comp_stores(q):
-        f = cx.fn(q, 'K-SM9-FROB')
-        if f is None:
-            return None, None
-        P = Prov(f, F, cut_loops=True); cn = Canon(f, P)
-        out = {}
-        for b, i, st in f.stmts():
-            if st['k'] == 'assign' and st['lhs']['p'] and f.locals[st['lhs']['l']].get('name') in ('ra', 'rb', 'rc'):
-                key = f.locals[st['lhs']['l']]['name'] + '.' + '.'.join(p['name'] for p in st['lhs']['p'] if isinstance(p, dict) and 'f' in p)
-                out.setdefault(key, []).append(I.shorten_vars(cn.c(norm(P.rvalue(st['rv'], b, i, 0)))))
-        return f, out
-    f, st = comp_stores('<impl fields::fp12::Fp12>::fp12_frobenius')
+    # frobenius / frobenius3: what every coordinate of the result is (field-sensitive composition: statement order,
+    # zero-initialised builders, temporaries and chained calls do not matter)
+    from ..rules_a import ExprFlow
+    f = cx.fn('<impl fields::fp12::Fp12>::fp12_frobenius', 'K-SM9-FROB')
     if f:
+        got = ExprFlow(F, f).result()
         # coefficient of w^k (k = 0,3 | 1,4 | 2,5 for c0.c0,c0.c1 | c1.c0,c1.c1 | c2.c0,c2.c1) is conjugated and multiplied by alpha^k
         want = {}
-        for comp, src, ks in (('ra', 'c0', (0, 3)), ('rb', 'c1', (1, 4)), ('rc', 'c2', (2, 5))):
+        for comp, ks in (('c0', (0, 3)), ('c1', (1, 4)), ('c2', (2, 5))):
             for sub, k in zip(('c0', 'c1'), ks):
-                key = '%s.%s' % (comp, sub)
-                want[key] = ['conjugate($self.%s.%s)' % (src, sub)] + (['fp_mul_fp(%s.%s, SM9_MONT_ALPHA%d)' % (comp, sub, k)] if k else [])
-        cx.add('K-SM9-FROB', 'frobenius/use', st == want, 'p-Frobenius: the coefficient of w^k is conjugated and multiplied by alpha^k, k = 0..5 (derived from w^12 = -2)', f.loc(), {'got': st})
-    f, st = comp_stores('<impl fields::fp12::Fp12>::fp12_frobenius3')
+                cj = 'conjugate($self.%s.%s)' % (comp, sub)
+                want['%s.%s' % (comp, sub)] = 'fp_mul_fp(%s, SM9_MONT_ALPHA%d)' % (cj, k) if k else cj
+        cx.add('K-SM9-FROB', 'frobenius/use', got == want, 'p-Frobenius: the coefficient of w^k is conjugated and multiplied by alpha^k, k = 0..5 (derived from w^12 = -2)', f.loc(), {'got': got})
+    f = cx.fn('<impl fields::fp12::Fp12>::fp12_frobenius3', 'K-SM9-FROB')
     if f:
-        want = {'ra.c0': ['conjugate($self.c0.c0)'], 'ra.c1': ['conjugate($self.c0.c1)', 'fp_mul(ra.c1, SM9_MONT_BETA)', 'fp_neg(ra.c1)'],
-                'rb.c0': ['conjugate($self.c1.c0)', 'fp_mul(rb.c0, SM9_MONT_BETA)'], 'rb.c1': ['conjugate($self.c1.c1)'],
-                'rc.c0': ['conjugate($self.c2.c0)', 'fp_neg(rc.c0)'], 'rc.c1': ['conjugate($self.c2.c1)', 'fp_mul(rc.c1, SM9_MONT_BETA)']}
-        cx.add('K-SM9-FROB', 'frobenius3/use', st == want, 'p^3-Frobenius: coefficient of w^k times alpha^(3k) = beta^k with beta = alpha^3, beta^2 = -1 ... (use sites of SM9_MONT_BETA and the sign changes)', f.loc(), {'got': st})
+        got = ExprFlow(F, f, commut=('fp_mul',)).result()
+        B_ = lambda x: 'fp_mul(SM9_MONT_BETA, %s)' % x
+        cj = lambda c_, s_: 'conjugate($self.%s.%s)' % (c_, s_)
+        want = {'c0.c0': cj('c0', 'c0'), 'c0.c1': 'fp_neg(%s)' % B_(cj('c0', 'c1')), 'c1.c0': B_(cj('c1', 'c0')), 'c1.c1': cj('c1', 'c1'),
+                'c2.c0': 'fp_neg(%s)' % cj('c2', 'c0'), 'c2.c1': B_(cj('c2', 'c1'))}
+        alt = dict(want)
+        alt['c0.c1'] = B_('fp_neg(%s)' % cj('c0', 'c1'))     # (-x)*beta == -(x*beta)
+        cx.add('K-SM9-FROB', 'frobenius3/use', got in (want, alt), 'p^3-Frobenius: coefficient of w^k times alpha^(3k) = beta^k with beta = alpha^3, beta^2 = -1 ... (use sites of SM9_MONT_BETA and the sign changes)', f.loc(), {'got': got})
         # numeric relation behind the template: alpha^6 = -1 and alpha^9 = -alpha^3 (mod p)
         a = s.alpha[1]
         cx.add('K-SM9-FROB', 'frobenius3/algebra', pow(a, 6, s.p) == s.p - 1 and pow(a, 12, s.p) == 1, 'alpha^6 = -1 and alpha^12 = 1 mod p, so alpha^(3k) in {1, beta, -1, -beta}', '')
